@@ -557,6 +557,24 @@ def h_transpose(engine, st, fr, callee, argv, m):
     return ("fork", alts)
 
 
+def _unref(engine, st, v):
+    while isinstance(v, Ref):
+        v = engine.load(st, v.addr)
+    return v
+
+
+def h_is_some(engine, st, argv, m):
+    o = _unref(engine, st, argv[0])
+    return BoolV((o.discr == 1) if m.group(1) == "is_some" else (o.discr != 1))
+
+
+def h_expect(engine, st, argv, m):
+    o = _unref(engine, st, argv[0])
+    msg = bytes_of(engine, argv[1]) if len(argv) > 1 else b"unwrap on None"
+    return ("fork", [(o.discr == 1, o.variants.get(1, [UNINIT])[0], None),
+                     (o.discr != 1, ("panic", "Option::%s on None: %s" % (m.group(1), (msg or b"").decode("latin-1"))), None)])
+
+
 def h_map_drop(engine, st, fr, callee, argv, m):
     r = argv[0]
     return EnumV("Result", r.discr, {0: [UnitV()], 1: list(r.variants.get(1, [UNINIT]))})
@@ -564,7 +582,9 @@ def h_map_drop(engine, st, fr, callee, argv, m):
 
 COMBINATOR_STUBS = [
     (rx(r"^std::result::Result::<.*>::map::<\(\), fn\(\w+\) \{std::mem::drop::<\w+>\}>$"), h_map_drop),
-    (rx(r"^Option::<.*>::ok_or_else::<"), h_ok_or_else),
+    (rx(r"^(?:std::option::)?Option::<.*>::ok_or_else::<"), h_ok_or_else),
+    (rx(r"^(?:std::option::)?Option::<.*>::(is_some|is_none)$"), lambda e, st, fr, c, a, m: h_is_some(e, st, a, m)),
+    (rx(r"^(?:std::option::)?Option::<.*>::(expect|unwrap)$"), lambda e, st, fr, c, a, m: h_expect(e, st, a, m)),
     (rx(r"^std::result::Result::<.*>::and_then::<"), h_and_then),
     (rx(r"^std::result::Result::<.*>::map_err::<"), h_map_err),
     (rx(r"^std::result::Result::<Option<.*>::transpose$"), h_transpose),
